@@ -299,6 +299,103 @@ def translate_getitem_int_branch(repo):
     return code
 
 
+TORCH_DTYPES = {"bool": "DBool", "uint8": "DUInt8", "int8": "DInt8", "int16": "DInt16", "short": "DInt16",
+                "int32": "DInt32", "int": "DInt32", "int64": "DInt64", "long": "DInt64"}
+
+
+class IdxTr(FnTr):
+    """FnTr + the expressions of the tensor-index range check: idx.numel(), idx.dtype ==/!= torch.<dtype>,
+    idx.max().item() / idx.min().item() compared with size / -size.  `idx` is denoted by (dt, vals)."""
+
+    def expr(self, e):
+        src = ast.unparse(e)
+        if src == "idx.numel()":
+            return [], "negb (length vals =? 0)", "bool"          # truth value of a python int
+        if src == "idx.max().item()":
+            return [], "(zmax vals)", "Z"
+        if src == "idx.min().item()":
+            return [], "(zmin vals)", "Z"
+        if src == "size":
+            return [], "size", "nat"
+        if src == "-size":
+            return [], "(- Z.of_nat size)%Z", "Z"
+        if isinstance(e, ast.Compare) and len(e.ops) == 1 and ast.unparse(e.left) == "idx.dtype":
+            nm = dotted_name(e.comparators[0])
+            if nm is None or not nm.startswith("torch.") or nm[6:] not in TORCH_DTYPES:
+                raise Untranslatable("dtype comparison with %s" % ast.unparse(e.comparators[0]))
+            c = "idtype_eqb dt %s" % TORCH_DTYPES[nm[6:]]
+            if isinstance(e.ops[0], ast.Eq):
+                return [], c, "bool"
+            if isinstance(e.ops[0], ast.NotEq):
+                return [], "negb (%s)" % c, "bool"
+            raise Untranslatable("dtype comparison operator")
+        if isinstance(e, ast.Compare) and len(e.ops) == 1 and isinstance(e.ops[0], (ast.GtE, ast.Gt, ast.Lt, ast.LtE)):
+            b1, t1, ty1 = self.expr(e.left)
+            b2, t2, ty2 = self.expr(e.comparators[0])
+
+            def z(t, ty):
+                if ty == "Z":
+                    return t
+                if ty == "nat":
+                    return "Z.of_nat %s" % t
+                raise Untranslatable("ordering comparison of %s" % ty)
+            l, r = z(t1, ty1), z(t2, ty2)
+            op = e.ops[0]
+            c = {ast.GtE: "(%s <=? %s)%%Z" % (r, l), ast.Gt: "(%s <? %s)%%Z" % (r, l),
+                 ast.Lt: "(%s <? %s)%%Z" % (l, r), ast.LtE: "(%s <=? %s)%%Z" % (l, r)}[type(op)]
+            return b1 + b2, c, "bool"
+        return FnTr.expr(self, e)
+
+
+def only_raises(stmts_):
+    """every path through the statements ends in `raise` (nested ifs allowed)"""
+    if not stmts_:
+        return False
+    last = stmts_[-1]
+    if isinstance(last, ast.Raise):
+        return True
+    if isinstance(last, ast.If) and last.orelse:
+        return only_raises(last.body) and only_raises(last.orelse)
+    return False
+
+
+def translate_getitem_tensor_check(repo):
+    """the range check at the top of the `torch.is_tensor(idx)` branch of _compute_getitem_size: the leading `if`
+    statements of that branch whose bodies can only raise (conditions: settings.debug, idx.numel(), the DTYPE condition,
+    the comparison of idx.max() / idx.min() with size)"""
+    src = open(os.path.join(repo, "linear_operator/utils/getitem.py")).read()
+    fn = find_func(ast.parse(src), "_compute_getitem_size")
+    lp = [s for s in fn.body if isinstance(s, ast.For)][0]
+    node = lp.body[0] if len(lp.body) == 1 else None
+    branch = None
+    while isinstance(node, ast.If):
+        if ast.unparse(node.test) == "torch.is_tensor(idx)":
+            branch = node.body
+        node = node.orelse[0] if len(node.orelse) == 1 else None
+    if branch is None:
+        raise Untranslatable("_compute_getitem_size: no torch.is_tensor(idx) branch")
+
+    def guard_like(st):
+        if not isinstance(st, ast.If) or st.orelse:
+            return False
+        return only_raises(st.body) or (len(st.body) == 1 and guard_like(st.body[0]))
+    checks = []
+    for st in branch:
+        if guard_like(st):
+            checks.append(st)
+        else:
+            break
+    # whatever follows must not look at the VALUES of idx (it computes shapes only)
+    for st in branch[len(checks):]:
+        t = ast.unparse(st)
+        if re.search(r"idx\.(max|min|item|dtype|numel)\b", t) or "raise IndexError" in t and "tensor index out of range" in t:
+            raise Untranslatable("_compute_getitem_size: a value-dependent statement follows the range check: %s" % t[:60])
+    tr = IdxTr({"debug": "bool"}, ret_unit=True)
+    body = tr.stmts(checks, "Ok tt") if checks else "Ok tt"
+    return ("Definition gen_getitem_tensor_check (debug : bool) (dt : idtype) (size : nat) (vals : list Z) : res unit :=\n%s.\n"
+            % body)
+
+
 # ------------------------------------------------------------------------------------------------ part B
 
 ENTRY_METHOD = {
@@ -1086,7 +1183,8 @@ def translate(repo):
     out = ["(* GENERATED by harness/c19_tr.py from %s — do not edit *)" % "linear_operator/{utils/broadcasting.py,utils/getitem.py,operators/*.py}",
            "From Coq Require Import String.", "From Coq Require Import List ZArith Bool Arith.", "Import ListNotations.",
            "Require Import C19.Model.", "Open Scope nat_scope.", "",
-           translate_matmul_broadcast_shape(repo), translate_getitem_int_branch(repo), "",
+           translate_matmul_broadcast_shape(repo), translate_getitem_int_branch(repo),
+           translate_getitem_tensor_check(repo), "",
            "(* operator-operand overrides: every tensor / operator expression is denoted by its shape; a = self.shape, b = operand shape *)",
            translate_operator_overrides(classes, memo), ""]
     lines = []
